@@ -8,6 +8,21 @@ ALL = [f'C{i:02d}' for i in range(1, 21)]
 
 # property -> (level text, level note, technique, design section)
 CHECKS = {
+    'C10': (
+        'Lean 4 theorems for every sweep built from Points, Linspace, ListSweep, UnitSweep by Product / Zip / ZipLongest / Concat (any nesting): '
+        'len equals the number of assignments iteration yields (C10_len_eq_tuples), indexing with any integer incl. negatives equals the '
+        'corresponding element of the iteration and raises outside the range (C10_getItem_eq, C10_getItem_ok), the leftmost product factor is '
+        'the outermost loop, Zip stops at the shorter and ZipLongest runs to the longer operand repeating the last assignment '
+        '(C10_extendTo_get), Linspace starts at start and ends at stop (C10_linspace_endpoints); for expression trees and resolver chains: '
+        'one substitution pass commutes with evaluation (C10_subst_commutes) and whenever recursive resolution returns (no loop) its '
+        'value equals the original expression under every assignment consistent with the bindings (C10_resolveRec_sound). T2: generated '
+        'nested sweeps (len, keys, param tuples, every index, slices), sympy expression trees with resolver chains incl. cyclic ones '
+        '(RecursionError), parameterised circuits: resolver chains, resolve-then-matrix, partial resolution, simulate_sweep, flatten.',
+        'Trusted: Lean kernel; harness + driver; sympy number arithmetic; Pow and other sympy node types are outside the model; KNOWN '
+        'FINDING circuit:flatten:subcircuit (see known_findings.json).',
+        'Lean 4 proof (structural induction on sweeps and expressions) + differential correspondence',
+        'DESIGN.md §3 C10',
+    ),
     'C13': (
         'Kernel-decided obligations on tables regenerated from the running code on every run (exact Q(zeta_8) arithmetic, no sampling): for '
         'CliffordTableau.apply_x / apply_y / apply_z at exponents 1/2, 1, 3/2, apply_h, apply_cz and apply_cx the update of *every* row '
